@@ -281,7 +281,8 @@ theorem ldx_write_good_bad (cfg : Cfg) (w : Cli.World Ext) (sess : Nat) (cidb : 
   have hencvb : encodeValue (ldx_wparsed 1 (renderLevel ⟨sb.name, [i]⟩) ib vb) ib =
       (ldx_wparsed 1 (renderLevel ⟨sb.name, [i]⟩) ib vb, some bb) :=
     ldx_encodeValue_elem (ldx_wparsed 1 (renderLevel ⟨sb.name, [i]⟩) ib vb) ib dim tb bb hnbb hseqb
-      (by rw [hinfob.typeName]; exact hndwb) hinfob.ty hbb rfl rfl hencb
+      (by rw [hinfob.typeName]; exact hndwb) hinfob.ty hbb rfl rfl
+      (by show encode tb (argOf tb vb) = _; rw [RT.argOf_of_canon tb vb hcanonb]; exact hencb)
   obtain ⟨pa, hpa, hpla, hdena⟩ := ldr_requestPath cfg sa.name ia sa.inst hida hinfoa.instanceId hinsta
   obtain ⟨pb, hpb, hplb, hdenb⟩ := ldr2_requestPath cfg ⟨sb.name, [i]⟩ ib sb.inst hl hinfob.instanceId hinstb
   have hplb' : pb.length ≤ sb.name.length + 19 := by
